@@ -35,12 +35,14 @@ structure Inv (st : St) : Prop where
       removed BEFORE: by recv's look-up or by the early exit itself) and nothing is on the wire for it -/
   rel_ok : ∀ c, st.rel c = .due → st.owner (st.sidOf c) = some c ∧ st.wire (st.sidOf c) = .none ∧
     (st.closed = none → st.reg (st.sidOf c) = none) ∧ (∀ s r wr ret, st.pc c ≠ .flight s r wr ret) ∧ st.pc c ≠ .idle
+  /-- the id of a call in flight is one the allocator may hand out -/
+  range : ∀ c s r wr ret, st.pc c = .flight s r wr ret → 1 ≤ s ∧ s < st.cap
 
 theorem inv_init (cap : Nat) : Inv (init cap) := by
   constructor <;> simp [init]
 
 macro "close_own" h:ident : tactic => `(tactic| (
-  obtain ⟨h1, h2, h2', h3, h4, h5, h6, h7, h8, h9, h10, h11⟩ := $h
+  obtain ⟨h1, h2, h2', h3, h4, h5, h6, h7, h8, h9, h10, h11, h12⟩ := $h
   constructor <;> simp only [upd, closeWith, earlyExit] <;> grind))
 
 set_option maxHeartbeats 4000000 in
